@@ -645,6 +645,13 @@ func (s *Server) handleRequest(req *dhcpv4.DHCPv4) (*dhcpv4.DHCPv4, error) {
 		} else if !pool.Contains(requestedIP) {
 			atomic.AddUint64(&s.naksTotal, 1)
 			return s.buildNAK(req, "IP not in pool")
+		} else if !pool.IsAllocatedTo(mac, requestedIP) {
+			// The address must be the one the pool reserved for this client
+			// (DISCOVER/OFFER). Anything else - another client's address, the
+			// gateway, network or broadcast address, a free address the pool
+			// does not know is being used - must not be acknowledged.
+			atomic.AddUint64(&s.naksTotal, 1)
+			return s.buildNAK(req, "IP not allocated to client")
 		}
 	}
 
